@@ -711,6 +711,37 @@ def _canon_extend_option(f, bid):
     return True
 
 
+def _canon_map_from_array(f, bid):
+    """`HashMap::from([(k1, v1), ..])` / `Map::from_iter([..])` with an array literal of pairs is `let mut m = HashMap::new(); m.insert(k1, v1); ..`"""
+    b = f["blocks"][bid]
+    t = b["term"]
+    if b["cleanup"] or t["k"] != "call" or t.get("name") not in ("from", "from_iter") or t.get("trait") not in ("std::convert::From", "std::iter::FromIterator") \
+            or t.get("target") is None or len(t["args"]) != 1 or t["dest"]["proj"]:
+        return False
+    if t.get("self_adt") not in ("std::collections::HashMap", "serde_json::Map", "std::collections::BTreeMap", "indexmap::IndexMap"):
+        return False
+    ga = t.get("gargs") or []
+    if not ga or not re.match(r"^\[\(.*\); \d+\]$", ga[-1] or ""):
+        return False
+    line = t.get("line")
+    adt = t["self_adt"]
+    mk = lambda place, rv: {"k": "assign", "place": place, "rv": rv, "line": line, "exp": None, "synth": True}
+    pl = lambda l, proj=(): {"local": l, "proj": list(proj)}
+    # m = Map::new(); r = &mut m; extend(r, array)  -- then the extend form is rewritten by _canon_extend_array
+    r = _new_local(f, "&mut " + (t.get("self_ty") or adt), "map-from-ref")
+    u = _new_local(f, "()", "map-from-unit")
+    ext = {"k": "call", "unwind": t.get("unwind"), "line": line, "exp": None, "synth": True, "gargs": [t.get("self_ty"), "?", ga[-1]], "callee_local": False, "resolved_local": False,
+           "instance_kind": "Item", "ret_never": False, "callee": "std::iter::Extend::extend", "name": "extend", "trait": "std::iter::Extend", "self_ty": t.get("self_ty"), "self_adt": adt,
+           "resolved": "<%s as std::iter::Extend>::extend" % adt, "callee_crate": "core", "resolved_crate": "std", "args": [{"move": pl(r)}, t["args"][0]], "dest": pl(u), "target": t["target"]}
+    eb = _new_block(f, [mk(pl(r), {"ref": dict(t["dest"]), "mut": True})], ext, "map-from-extend")
+    b["desugared_call"] = t
+    b["term"] = {"k": "call", "unwind": t.get("unwind"), "line": line, "exp": None, "synth": True, "gargs": [], "callee_local": False, "resolved_local": False, "instance_kind": "Item",
+                 "ret_never": False, "callee": "%s::new" % adt, "name": "new", "trait": None, "self_ty": t.get("self_ty"), "self_adt": adt, "resolved": "%s::new" % adt,
+                 "callee_crate": "std", "resolved_crate": "std", "args": [], "dest": dict(t["dest"]), "target": eb}
+    _canon_extend_array(f, eb)
+    return True
+
+
 def _canon_extend_array(f, bid):
     """`map.extend([(k1, v1), (k2, v2)])` with an array literal of pairs is `map.insert(k1, v1); map.insert(k2, v2)`: written that way in the view"""
     b = f["blocks"][bid]
@@ -1843,6 +1874,7 @@ class Views:
                     _canon_collect_value(f, bid)
                     _canon_extend_option(f, bid)
                     _canon_extend_array(f, bid)
+                    _canon_map_from_array(f, bid)
                 except Exception:
                     pass
             for bid in own_ids:
